@@ -7,14 +7,14 @@ W="$1"; PKG="${2:-server}"
 export GOFLAGS=-mod=mod GOPROXY=off GOSUMDB=off GOTOOLCHAIN=local
 cd "$W" || exit 2
 git checkout -- . >/dev/null 2>&1
-rm -f $PKG/zz_demo_test.go server/append.aof.* 
+rm -f $PKG/zz_demo*_test.go server/append.aof.* 
 git apply mutant/patch.diff || { echo "patch does not apply in $W"; exit 2; }
 go build ./... && echo "build(with): ok" || echo "build(with): FAIL"
 go test -vet=off -count=1 ./server/ ./protocol/ >/tmp/confirm_base.log 2>&1 && echo "repo tests(with): pass" || { echo "repo tests(with): FAIL"; tail -5 /tmp/confirm_base.log; }
-cp mutant/zz_demo_test.go $PKG/zz_demo_test.go
-go test -vet=off -count=1 -run 'TestZZDemo' ./$PKG/ >/tmp/confirm_with.log 2>&1 && echo "demo(with): PASS  <-- not a demonstration" || echo "demo(with): fails as wanted: $(grep -m2 -E '^\s+.*_test.go:[0-9]+:|--- FAIL' /tmp/confirm_with.log | tr '\n' ' ' | cut -c1-260)"
+cp mutant/zz_demo*_test.go $PKG/
+go test -vet=off -count=1 -run 'TestZZDemo|TestDemoC|TestC[0-9][0-9]' ./$PKG/ >/tmp/confirm_with.log 2>&1 && echo "demo(with): PASS  <-- not a demonstration" || echo "demo(with): fails as wanted: $(grep -m2 -E '^\s+.*_test.go:[0-9]+:|--- FAIL' /tmp/confirm_with.log | tr '\n' ' ' | cut -c1-260)"
 git apply -R mutant/patch.diff
-go test -vet=off -count=1 -run 'TestZZDemo' ./$PKG/ >/tmp/confirm_without.log 2>&1 && echo "demo(without): passes as wanted" || { echo "demo(without): FAIL <-- not a demonstration"; tail -5 /tmp/confirm_without.log; }
-rm -f $PKG/zz_demo_test.go server/append.aof.* server/*.aof* 2>/dev/null
+go test -vet=off -count=1 -run 'TestZZDemo|TestDemoC|TestC[0-9][0-9]' ./$PKG/ >/tmp/confirm_without.log 2>&1 && echo "demo(without): passes as wanted" || { echo "demo(without): FAIL <-- not a demonstration"; tail -5 /tmp/confirm_without.log; }
+rm -f $PKG/zz_demo*_test.go server/append.aof.* server/*.aof* 2>/dev/null
 git checkout -- . >/dev/null 2>&1
 git status --short | grep -v mutant | head
